@@ -99,7 +99,8 @@ Proof.
   split; [lra|].
   unfold gen_lla_exit_p1, gen_lla_lat_it1, gen_lla_lat_it0. cbv zeta.
   replace (0 / (1275627 / 200)) with 0 by field.
-  assert (P : 0 < sqrt ((7000 / (1275627 / 200)) ^ 2 + 0 ^ 2)) by (apply sqrt_lt_R0; lra).
+  match goal with |- context [atan2 _ (sqrt ?u)] =>
+    assert (P : 0 < sqrt u) by (apply sqrt_lt_R0; lra) end.
   rewrite !Atan2Lib.atan2_pos_x by exact P.
   interval.
 Qed.
